@@ -58,9 +58,10 @@ theorem sum_lengths_card (m : List (Range Int)) (h : MultiRange.Inv m) :
     omega
 
 /-- **mr_total_length** (`int`): the total length is the measure (number of points) of the union -/
-theorem mr_total_length (m : List (Range Int)) (h : MultiRange.Inv m) (hB : ∀ x ∈ m, x.e < 2 ^ 64) :
+theorem mr_total_length (m : List (Range Int)) (h : MultiRange.Inv m) (hB : ∀ x ∈ m, x.e < 2 ^ 63)
+    (hL : ∀ x ∈ m, -(2 : Int) ^ 63 ≤ x.b) :
     (MultiRange.totalLength m : Int) = ((cells m).card : Int) := by
-  rw [totalLength_int m h hB, sum_lengths_card m h]
+  rw [totalLength_int m h hB hL, sum_lengths_card m h]
 
 /-- **mr_total_length_uint** (`unsigned`): the same, the coordinates read as natural numbers -/
 theorem mr_total_length_uint (m : List (Range UInt32)) (h : MultiRange.Inv m) :
@@ -69,7 +70,7 @@ theorem mr_total_length_uint (m : List (Range UInt32)) (h : MultiRange.Inv m) :
 
 /-- **mr_total_length_rat** (`double`, integral end points): the same -/
 theorem mr_total_length_rat (m : List (Range Rat)) (h : MultiRange.Inv m) (hint : ∀ x ∈ m, Integral x)
-    (hB : ∀ x ∈ m, x.e.floor < 2 ^ 64) :
+    (hB : ∀ x ∈ m, x.e.floor < 2 ^ 63) (hL : ∀ x ∈ m, -(2 : Int) ^ 63 ≤ x.b.floor) :
     (MultiRange.totalLength m : Int) = ((cells (m.map ratToI)).card : Int) := by
   have hinv : MultiRange.Inv (m.map ratToI) := by
     have hcast : ∀ a b : Int, ((a : Rat) ≤ b ↔ a ≤ b) ∧ ((a : Rat) < b ↔ a < b) := by
@@ -82,8 +83,7 @@ theorem mr_total_length_rat (m : List (Range Rat)) (h : MultiRange.Inv m) (hint 
       obtain ⟨hb, he⟩ := hint x hx
       have h1 := h.1 x hx
       rw [hb, he] at h1
-      have h0 : ((0 : Rat)) = ((0 : Int) : Rat) := by simp
-      rw [h0, (hcast _ _).1, (hcast _ _).2] at h1
+      rw [(hcast _ _).2] at h1
       simpa [ratToI, Rat.floor_intCast] using h1
     · rw [List.pairwise_map]
       apply List.Pairwise.imp_of_mem _ h.2
@@ -93,19 +93,35 @@ theorem mr_total_length_rat (m : List (Range Rat)) (h : MultiRange.Inv m) (hint 
       simp only [R, ratToI] at *
       rw [h1, h2, (hcast _ _).1] at hxy
       simpa [Rat.floor_intCast] using hxy
-  rw [totalLength_rat m h hint hB, sum_lengths_card _ hinv]
+  rw [totalLength_rat m h hint hB hL, sum_lengths_card _ hinv]
 
-/-- for every history of an `int` multi-range inside the `int` range, the reported total length
-is the number of points of the union of everything added, intersected with every restriction
-applied since (`mr_denotes`), read through `mem_cells` -/
-theorem mr_total_length_history (ops : List (Op Int)) (hok : ∀ o ∈ ops, o.ok)
-    (hfit : ∀ o ∈ ops, ∀ a ∈ o.args, inInt32 a) :
+/-- for every history of an `int` multi-range with arguments in `[-2^30, 2^30[`, the reported
+total length is the number of points of the stored union (whose points `mr_denotes` /
+`mr_denotes_all` identify), read through `mem_cells` -/
+theorem mr_total_length_history (ops : List (Op Int))
+    (hfit : ∀ o ∈ ops, ∀ a ∈ o.args, inHalfInt32 a) :
     (MultiRange.totalLength (run ops) : Int) = ((cells (run ops)).card : Int) ∧
     ∀ p, p ∈ cells (run ops) ↔ pts (run ops) p := by
-  refine ⟨mr_total_length _ (mr_inv ops hok) ?_, mem_cells _⟩
-  intro x hx
-  have := ((int_no_overflow ops hok hfit).1 x hx).2.1
-  unfold inInt32 at this; omega
+  have h := (int_no_overflow ops hfit).1
+  refine ⟨mr_total_length _ (mr_inv ops) ?_ ?_, mem_cells _⟩
+  · intro x hx; have := (h x hx).2.1; unfold inHalfInt32 at this; omega
+  · intro x hx; have := (h x hx).1; unfold inHalfInt32 at this; omega
+
+/-- the same for every history of an `unsigned` multi-range (no hypothesis at all) -/
+theorem mr_total_length_history_uint (ops : List (Op UInt32)) :
+    (MultiRange.totalLength (run ops) : Int) = ((cells ((run ops).map uintToI)).card : Int) :=
+  mr_total_length_uint _ (mr_inv ops)
+
+/-- and for every history of a `double` multi-range whose arguments are integers (the property's
+universe): integrality of the stored end points is preserved because no new coordinate is ever
+computed (`endpoints_closed`) -/
+theorem mr_total_length_history_rat (ops : List (Op Rat))
+    (hint : ∀ o ∈ ops, ∀ a ∈ o.args, a = (a.floor : Rat) ∧ -(2 : Int) ^ 63 ≤ a.floor ∧ a.floor < 2 ^ 63) :
+    (MultiRange.totalLength (run ops) : Int) = ((cells ((run ops).map ratToI)).card : Int) := by
+  have hcl := endpoints_closed (fun a : Rat => a = (a.floor : Rat) ∧ -(2 : Int) ^ 63 ≤ a.floor ∧ a.floor < 2 ^ 63)
+    (by refine ⟨by decide +kernel, by decide +kernel, by decide +kernel⟩) ops hint
+  exact mr_total_length_rat _ (mr_inv ops) (fun x hx => ⟨(hcl x hx).1.1, (hcl x hx).2.1⟩)
+    (fun x hx => (hcl x hx).2.2.2) (fun x hx => (hcl x hx).1.2.1)
 
 example : MultiRange.totalLength [(⟨1, 3⟩ : Range Int), ⟨3, 5⟩, ⟨7, 9⟩] = 6 := by decide
 example : MultiRange.totalLength [(⟨1, 3⟩ : Range UInt32), ⟨3, 5⟩, ⟨7, 9⟩] = 6 := by decide
